@@ -48,7 +48,7 @@ struct CoreT {
 	HFSM2_IF_PLANS(PlanData planData);
 	HFSM2_IF_TRANSITION_HISTORY(TransitionTargets transitionTargets{INVALID_SHORT});
 	HFSM2_IF_TRANSITION_HISTORY(TransitionSets previousTransitions);
-	HFSM2_IF_UTILITY_THEORY(RNG& rng);
+	HFSM2_IF_UTILITY_THEORY(RNG* rng);
 	HFSM2_IF_LOG_INTERFACE(Logger* logger);
 };
 
